@@ -313,3 +313,39 @@ func piece_newWriter(ef, wf *ast.File) (string, error) {
 	return "/-- writer.go NewWriter(config): Writer field ↦ the WriterConfig field it is taken from (\"?\" = something else) -/\n" +
 		"def newWriterMap : List (String × String) := [" + strings.Join(rows, ", ") + "]\n\n", nil
 }
+
+// piece_completeOrder reads (*writeBatch).complete: the batch's error must be stored before the done channel is closed
+// (the callers blocked on done read the error as soon as they wake up).
+func piece_completeOrder(ef, wf *ast.File) (string, error) {
+	fd := findFunc(wf, "writeBatch", "complete")
+	if fd == nil || fd.Body == nil {
+		return "", fmt.Errorf("writer.go: (*writeBatch).complete not found")
+	}
+	errPos, closePos := token.NoPos, token.NoPos
+	ast.Inspect(fd.Body, func(n ast.Node) bool {
+		switch x := n.(type) {
+		case *ast.AssignStmt:
+			for _, l := range x.Lhs {
+				if s, ok := l.(*ast.SelectorExpr); ok && s.Sel.Name == "err" && errPos == token.NoPos {
+					errPos = x.Pos()
+				}
+			}
+		case *ast.CallExpr:
+			if id, ok := x.Fun.(*ast.Ident); ok && id.Name == "close" && len(x.Args) == 1 {
+				if s, ok := x.Args[0].(*ast.SelectorExpr); ok && s.Sel.Name == "done" && closePos == token.NoPos {
+					closePos = x.Pos()
+				}
+			}
+		}
+		return true
+	})
+	if errPos == token.NoPos || closePos == token.NoPos {
+		return "", fmt.Errorf("(*writeBatch).complete: no `b.err = …` / `close(b.done)` found")
+	}
+	v := "false"
+	if errPos < closePos {
+		v = "true"
+	}
+	return "/-- writer.go (*writeBatch).complete stores the batch's error before it closes the done channel -/\n" +
+		"def completeStoresErrFirst : Bool := " + v + "\n\n", nil
+}
